@@ -108,6 +108,9 @@ func (c *c17Mon) sample(sc *StepCtx) {
 	gctx := sdk.WrapSDKContext(ctx)
 	amino := w.a.app.LegacyAmino()
 	legacy := keeper.NewQuerier(k, amino)
+	if routed := w.a.app.QueryRouter().Route(types.QuerierRoute); routed != nil && sc.Idx%2 == 0 {
+		legacy = routed // the querier as the application registered it (module.go)
+	}
 	lq := func(route string, params interface{}) ([]byte, error) {
 		var data []byte
 		if params != nil {
